@@ -3,15 +3,20 @@ from pyvc.api import *
 from spec.core import *
 from spec.group import *
 import contracts.c02_group_assumed  # noqa: F401
+from spec.numth import *
+from contracts.c02_curve import inv_mod_def
 
 GEN = AbsGenerator()
 T = "pycoin.ecdsa.Generator:Generator."
 
 
-@axiom(sig={}, reason="the group order n is prime (assumption of C01/C02's quantifier), so every a with a mod n != 0 has an inverse modulo n, and inv_mod(a mod n, n) denotes it")
+@lemma(sig=dict(a=Int(), n=Int(2)), props=["C01"])
 def inv_mod_law(a, n):
+    """modulo a prime n every a with a mod n != 0 has an inverse, and inv_mod(a mod n, n) denotes it"""
+    prime_coprime(n, a)
+    inv_mod_def(a, n)
     w = inv_mod(a % n, n)
-    return implies(a % n != 0, (a * w) % n == 1 and 0 < w and w < n)
+    return implies(is_prime(n) and a % n != 0, (a * w) % n == 1 and 0 < w and w < n)
 
 
 def ecdsa_R(self, Qx, Qy, z, r, s):
